@@ -297,3 +297,74 @@ def r5(R):
                     'objects whose stored data was replaced by a merge are '
                     'not turned into ghosts: the writer keeps reading its '
                     'own pre-merge state')
+
+
+# ------------------------------------------------------------------ C10.R6
+PRF = 'ZODB.ConflictResolution.PersistentReferenceFactory'
+
+
+@rule('C10.R6', 'a reference read during resolution is written back in the '
+      'spelling it was read in: the per-resolution reference cache is keyed '
+      'by the whole reference, and persistent_id returns the stored '
+      'reference data', min_instances=2)
+def r6(R):
+    cls = R.prog.cls(PRF)
+    f = R.method(cls, 'persistent_load')
+    g, b, F = R.cfg(f, cls, max_depth=0)
+    n = 0
+    # every key used on the cache (self.data[...], .get(k), .setdefault(k))
+    keys = []
+    for x in walk_local(f.node):
+        if isinstance(x, ast.Subscript) and dotted(x.value) == (
+                'self', 'data'):
+            keys.append((x.slice, x))
+        elif isinstance(x, ast.Call) and isinstance(x.func, ast.Attribute) \
+                and dotted(x.func.value) == ('self', 'data') and \
+                x.func.attr in ('get', 'setdefault', 'pop', '__contains__') \
+                and x.args:
+            keys.append((x.args[0], x))
+        elif isinstance(x, ast.Compare) and len(x.ops) == 1 and isinstance(
+                x.ops[0], (ast.In, ast.NotIn)) and dotted(
+                    x.comparators[0]) == ('self', 'data'):
+            keys.append((x.left, x))
+    frame = g.root
+    R.require(frame is not None, 'no root frame')
+    for k, site in keys:
+        n += 1
+        R.instance('persistent_load cache key: %s' % ast.unparse(site)[:60])
+        pv = provenance(k, frame, F)
+        whole = prov_has(pv, 'param', lambda p: p == 'ref')
+        parsed = prov_has(pv, 'attr', lambda a: a in (
+            'oid', 'database_name', 'weak', 'klass')) or prov_has(
+                pv, 'call', lambda p: p[-1].split('.')[-1] ==
+                'PersistentReference')
+        if not whole or parsed:
+            R.violation(
+                (f.module.relpath, f.qualname,
+                 ' '.join(ast.unparse(site).split()), site.lineno),
+                'the reference cache is keyed by %s, not by the whole '
+                'reference: two differently spelled references to one object '
+                '(obj and WeakRef(obj), with/without class) share one '
+                'PersistentReference and are both written back in the '
+                'spelling seen first' % ast.unparse(k),
+                key='reference cache key')
+    # the writer side: persistent_id returns the reference's stored data
+    pid = R.prog.func('ZODB.ConflictResolution.persistent_id')
+    rets = [r for r in walk_local(pid.node) if isinstance(r, ast.Return)
+            and r.value is not None and not (isinstance(
+                r.value, ast.Constant) and r.value.value is None)]
+    R.require(rets, 'persistent_id returns nothing')
+    for r in rets:
+        n += 1
+        R.instance('persistent_id: %s' % ast.unparse(r))
+        if not (isinstance(r.value, ast.Attribute) and
+                r.value.attr == 'data' and isinstance(
+                    r.value.value, ast.Name) and
+                r.value.value.id in pid.params):
+            R.violation(
+                (pid.module.relpath, pid.qualname,
+                 ' '.join(ast.unparse(r).split()), r.lineno),
+                'persistent_id does not return the stored reference data of '
+                'the PersistentReference it is given',
+                key='persistent_id return')
+    R.require(n >= 2, 'no cache keys found')
